@@ -19,7 +19,8 @@ const verifHostProgram = "import trigger minute from triggers;\nimport templ Foo
 	"impl FooFeature with { light } for $Device {\n  fn dim(self: $Device, percent: int) -> bool {\n    if self.b == percent { return false; }\n    self.b = percent;\n    true\n  }\n}\n" +
 	"event fn cb(elapsed: int) { println(elapsed); }\n" +
 	"fn reg(m: int) -> int {\n  trigger cb at minute(m);\n  return m + 1;\n}\n" +
-	"let g = 0;\n" +
+	"let g = 0;\nlet window = 0..6;\n" +
+	"fn scan(n: int) -> int {\n  for i in window {\n    if i >= n { return i; }\n  }\n  return 0 - 1;\n}\n" +
 	"fn sub(a: int, b: int) -> int { return a - b; }\n" +
 	"fn inc(d: int) -> int { g += d; return g; }\n" +
 	"fn early(n: int) -> int {\n  for i in 0..3 {\n    try {\n      if i == n { return i * 10; }\n    } catch e { }\n  }\n  return 99;\n}\n" +
@@ -27,7 +28,7 @@ const verifHostProgram = "import trigger minute from triggers;\nimport templ Foo
 	"fn lst(a: int) -> [int] { return [a, a + 1]; }\n" +
 	"fn main() { }\n"
 
-var verifHostTargets = []string{"sub", "inc", "early", "boom", "lst", "dim", "reg"}
+var verifHostTargets = []string{"sub", "inc", "early", "boom", "lst", "dim", "reg", "scan"}
 
 type verifHostVM struct {
 	vm       runtime.VM
@@ -88,6 +89,8 @@ func VerifHarness_HostCalls() {
 			inv.FunctionSignature.ReturnType = ast.NewBoolType(errors.Span{})
 		case "reg":
 			inv.FunctionSignature.Params[0].Ident = "m"
+		case "scan":
+			inv.FunctionSignature.Params[0].Ident = "n"
 		}
 		var res runtime.FunctionInvocationResult
 		panicked, msg := errors.VerifPanics(func() { res = h.vm.SpawnSync(inv, nil, nil) })
@@ -147,6 +150,15 @@ func VerifHarness_HostCalls() {
 			if len(*h.triggers) == nTrig {
 				errors.VerifAssert("trigger-registered-with-the-call-argument", (*h.triggers)[nTrig-1] == "cb@minute("+fmt.Sprint(a)+")")
 			}
+		case "scan":
+			// iterates a range held in a global and returns from inside the loop: the next call starts afresh
+			want := int64(-1)
+			if a <= 0 {
+				want = 0
+			} else if a <= 5 {
+				want = a
+			}
+			errors.VerifAssert("iteration-over-a-global-range-starts-afresh-in-every-call", rv.Kind() == vvalue.IntValueKind && rv.(vvalue.ValueInt).Inner == want)
 		case "lst":
 			ok := rv.Kind() == vvalue.ListValueKind
 			if ok {
